@@ -24,6 +24,9 @@ import (
 	"fmt"
 
 	"github.com/go-jose/go-jose/v4"
+
+	"github.com/dadrus/heimdall/internal/heimdall"
+	"github.com/dadrus/heimdall/internal/x/errorchain"
 )
 
 const (
@@ -64,6 +67,20 @@ func (e *Entry) JOSEAlgorithm() jose.SignatureAlgorithm {
 		return getECDSAAlgorithm(e.KeySize)
 	default:
 		panic("Unsupported algorithm: " + e.Alg)
+	}
+}
+
+// CheckSigningSupport returns an error if JOSEAlgorithm, respectively JWK do not support the key of
+// this entry. Both panic for such keys.
+func (e *Entry) CheckSigningSupport() error {
+	switch {
+	case e.Alg == AlgRSA && (e.KeySize == rsa2048 || e.KeySize == rsa3072 || e.KeySize == rsa4096):
+		return nil
+	case e.Alg == AlgECDSA && (e.KeySize == ecdsa256 || e.KeySize == ecdsa384 || e.KeySize == ecdsa512):
+		return nil
+	default:
+		return errorchain.NewWithMessagef(heimdall.ErrConfiguration,
+			"key with id '%s' has an unsupported algorithm (%s) or size (%d)", e.KeyID, e.Alg, e.KeySize)
 	}
 }
 
